@@ -111,12 +111,16 @@ CHECKS = {
    text="Coq: in the model a Go run-time panic is the result Err EPanic (slice bounds incl. the capacity rule, index out of range, nil) and an unbounded loop is fuel; proved for EVERY byte string "
         "presented as a database file and every legal page size: parseRecord, newBtree and the four cell parsers, addOverflow (cyclic / short / long chains; each page read at most once), "
         "Table.Scan, Index.Scan, ScanMin, ScanEq, ScanRange, Table.Rowid and the reading of sqlite_master never panic and never run out of fuel, for every root page, key and callback "
-        "(C05_record, C05_page, C05_overflow, C05_table_scan ... C05_master). Every run: structure-aware and blind corruptions of SQLite-written files, directed pointer corruptions of "
+        "(C05_record, C05_page, C05_overflow, C05_table_scan ... C05_master); and the high level API - Select, SelectRowid, IndexedSelect, IndexedSelectEq, PKSelect with their column mapping, "
+        "WITHOUT ROWID store order, primary-key positions inside index entries and key building - for every byte string as file AND every schema record, fitting the file or not "
+        "(C05_select, C05_select_rowid, C05_indexed_select, C05_indexed_select_eq, C05_pk_select). Every run: structure-aware and blind corruptions of SQLite-written files, directed pointer corruptions of "
         "every interior page, hostile sqlite_master texts, the repository's fuzz files and earlier failures: every public operation with panic recovery and a time limit; low level "
         "operations also through the extracted model. Found and repaired in this work: 7 panics / unbounded loops (see known_findings.json 'fixed').",
-   note="PARTIAL: the totality theorems cover the low level API and schema reading; the high level API (row mapping, key building), the SQL parser and Row.Scan are covered by the mutation "
-        "run on the code, not yet by a theorem. 'Hang' is judged by a generous per-operation wall-clock limit (8 s for operations that normally take < 50 ms). Known finding: exponential "
-        "re-traversal of fan-in DAGs below the depth limit. The pager contract (whole pages of the validated page size or an error) is a hypothesis of the theorems, met by the file pager and the harness pager.",
+   note="PARTIAL: the totality theorems cover the low level API, schema reading (sqlite_master rows) and the high level API given a schema record; turning sqlite_master's SQL text into that "
+        "record (sql.Parse + newCreateTable) and Row.Scan are covered by the mutation run on the code and by C16's range theorems for the parser driver, not by a theorem here. On corrupted "
+        "files the high level operations are run through the extracted model too whenever the damaged file still yields the intact file's schema (rows and ok/err must agree). "
+        "'Hang' is judged by a generous per-operation wall-clock limit (8 s for operations that normally take < 50 ms). Known finding: exponential re-traversal of fan-in DAGs below the "
+        "depth limit. The pager contract (whole pages of the validated page size or an error) is a hypothesis of the theorems, met by the file pager and the harness pager.",
    technique="Coq proof (panic-freedom and bounded fuel for all byte strings, by induction over the depth budget) + structure-aware mutation differential",
    design="DESIGN.md section 6, C05"),
  "C08": dict(
